@@ -185,6 +185,48 @@ fn check(c: &Case, obs: &mut Obs) {
     panic!("unknown pair {} -> {}", c.from, c.to);
 }
 
+// named colours: the constants are produced by a compile-time twin of From<Rgb888>; every constant must be what the
+// run-time conversion of the documented 8-bit triple gives (and therefore the nearest value per channel)
+#[derive(Clone, Debug, PartialEq, Eq, Hash, Serialize, Deserialize)]
+struct Named {
+    color: String,
+}
+fn named_check<T: Col + WebColors + From<Rgb888>>(obs: &mut Obs) {
+    obs.mark_nontrivial();
+    obs.class("named-colours");
+    let tm = T::KIND.maxima();
+    macro_rules! one {
+        ($id:ident, $r:expr, $g:expr, $b:expr) => {{
+            let c: T = <T as WebColors>::$id;
+            let want: T = Rgb888::new($r, $g, $b).into();
+            obs.count("named_colours", 1);
+            if c != want {
+                obs.fail("named-colour-equals-conversion-of-its-documented-triple", format!("{}::{} = {:?}, From<Rgb888>({}, {}, {}) = {:?}", T::NAME, stringify!($id), c, $r, $g, $b, want));
+            }
+            let ch = c.chans();
+            for (k, s) in [$r as u32, $g as u32, $b as u32].into_iter().enumerate() {
+                if !near(s, 255, ch[k] as u32, tm[k]) {
+                    obs.fail("named-colour-is-nearest-to-its-documented-triple", format!("{}::{} = {:?} for ({}, {}, {})", T::NAME, stringify!($id), c, $r, $g, $b));
+                }
+            }
+        }};
+    }
+    egverif::web_colors!(one);
+}
+fn check_named(c: &Named, obs: &mut Obs) {
+    match c.color.as_str() {
+        "Rgb555" => named_check::<Rgb555>(obs),
+        "Bgr555" => named_check::<Bgr555>(obs),
+        "Rgb565" => named_check::<Rgb565>(obs),
+        "Bgr565" => named_check::<Bgr565>(obs),
+        "Rgb666" => named_check::<Rgb666>(obs),
+        "Bgr666" => named_check::<Bgr666>(obs),
+        "Rgb888" => named_check::<Rgb888>(obs),
+        "Bgr888" => named_check::<Bgr888>(obs),
+        o => panic!("no named colours for {o}"),
+    }
+}
+
 fn count_of(name: &str) -> u64 {
     macro_rules! arm {
         ($t:ident) => {
@@ -221,17 +263,23 @@ fn run_part(run: &mut Run) {
         },
         check,
     );
+    run.sweep_vec(
+        "named-colours",
+        "the 141 named web colours of the 8 colour types that have them",
+        || ["Rgb555", "Bgr555", "Rgb565", "Bgr565", "Rgb666", "Bgr666", "Rgb888", "Bgr888"].iter().map(|c| Named { color: c.to_string() }).collect(),
+        check_named,
+    );
 }
 
 fn main() {
     egverif::fw::main(Prop {
         id: "C13",
         level: "exploration",
-        rule: "complete enumeration: a case is one chunk of source values of one ordered pair of colour types (a pair without a conversion would not compile); the counter conversions gives the number of individual source values; per value: nearest scaled value per channel (unique because all maxima are odd), widening-and-back identity, RGB->gray/binary monotone in each channel, RGB->gray within half a target step (plus half an 8-bit step per intermediate 8-bit rounding) of the luma band spanned by the 77/150/29 (/256) and 0.299/0.587/0.114 weights, binary thresholds (against the same band and against the public Gray8 conversion), binary->x extremes; per pair: black->black, white->white, gray->rgb->gray identity",
+        rule: "complete enumeration: a case is one chunk of source values of one ordered pair of colour types (a pair without a conversion would not compile); the counter conversions gives the number of individual source values; per value: nearest scaled value per channel (unique because all maxima are odd), widening-and-back identity, RGB->gray/binary monotone in each channel, RGB->gray within half a target step (plus half an 8-bit step per intermediate 8-bit rounding) of the luma band spanned by the 77/150/29 (/256) and 0.299/0.587/0.114 weights, binary thresholds (against the same band and against the public Gray8 conversion), binary->x extremes; per pair: black->black, white->white, gray->rgb->gray identity; every named web colour constant equals the run-time conversion of its documented 8-bit triple",
         assumptions: &["'luma' is any value between the weighted sums with the library's 8-bit weights and with the BT.601 weights; RGB->BinaryColor must also agree with the public RGB->Gray8 conversion", "channel maxima come from the harness's independent width table"],
         parts: |_| vec![PartSpec::new("all", "verif")],
         run_part,
-        required_classes: |_| vec!["rgb->rgb", "gray->gray", "gray->rgb", "rgb->gray", "rgb->binary", "gray->binary", "binary->x", "gray->rgb->gray-identity"],
+        required_classes: |_| vec!["rgb->rgb", "gray->gray", "gray->rgb", "rgb->gray", "rgb->binary", "gray->binary", "binary->x", "gray->rgb->gray-identity", "named-colours"],
         crash_is_verdict: false,
     })
 }
